@@ -532,7 +532,10 @@ theorem viewD_markBB (d : Def) : viewD (markBB d) = viewD d := by
   unfold markBB
   split <;> rfl
 
-/-- **c04_view.**  C04 at module level, syntax to netlist: let `T` be the top definition of the writer's netlist `n`, in
+/-- **c04_view.**  C04 at module level, syntax to netlist — THE VIEW OF THE TOP MODULE IS PRESERVED (not `readV (composeV n) = n`:
+    the netlist name, libraries, `n.top`, leaf directions / widths / bases are not in the statement; the view compares nets as a
+    function of the name (not their order), `ctype.getD "wire"`, `attrs.getD []`, and instance rows only up to the first free pin
+    (`connectedBlock`), so the WIDTH of a row is invisible; see docs/verilog.md §2a): let `T` be the top definition of the writer's netlist `n`, in
     the fragment `fragTop`; let `m = astOf n T` be the module the writer prints for it and `defs` the table the reader
     builds for a file that consists of that module (`elabDesign_wsingle`).  Then the first definition of the table shows
     the same view as `T`: the same ports in the same order (name, direction, base index, attributes, every pin on the same
@@ -697,7 +700,9 @@ theorem c04_view (n : Text.WNet) (T : Text.WDef) (m : WModP) (defs : List Def) (
               · exact hIV { d4 with attrs := some (T.attrs.getD []) } q2 rfl
         · cases hb
 
-/-- the fragment of C04 this file covers, as one decidable predicate on the writer's netlist -/
+/-- the fragment of C04 this file covers, as one decidable predicate on the writer's netlist; the second conjunct is a
+    COMPUTED clause: the closed-form (pure) reader `buildWI` accepts the written module — reader acceptance is assumed by
+    the predicate, not derived from syntactic conditions -/
 def fragC04 (n : Text.WNet) (T : Text.WDef) : Bool :=
   fragTop n T && ((astOf n T).bind (fun m => buildWI m.toI)).isSome
 
